@@ -88,6 +88,7 @@ func TestC10StalledClients(t *testing.T) {
 			case r := <-ch:
 				vlib.Eval()
 				if r.err != nil || !r.ok {
+					vlib.Violation(fmt.Sprintf("%s request not answered correctly: ok=%v err=%v", r.what, r.ok, r.err), "TestC10StalledClients", nil)
 					t.Fatalf("VIOLATION C10: with %d stalled clients holding connections (%+v), a %s request was not answered correctly: ok=%v err=%v", len(stalls), stalls, r.what, r.ok, r.err)
 				}
 			case <-deadline:
